@@ -81,7 +81,7 @@ DEFS = [
      "index is the byte offset returned by str::find for match_string: index and index + match_string.len() are char boundaries inside input_string", []),
     # ---------------------------------------------------------------- feel-number
     (r"number::scientific_to_plain$", r"(call\|core::(option::Option|result::Result)::<>::unwrap|assert\|Overflow:Sub)",
-     "the argument is the output of decQuadToString: in the branch guarded by contains(\"E+\") / contains(\"E-\") the text is <coefficient>E<sign><digits>, split() yields two parts, the exponent is a decimal integer, and to-scientific-string puts at most `exponent` digits after the point (General Decimal Arithmetic spec)",
+     "the argument is the output of decQuadToString: in the branch guarded by contains(\"E+\") / contains(\"E-\") the text is <coefficient>E<sign><digits>, split() yields two parts, the exponent is a decimal integer, and to-scientific-string puts at most `exponent` digits after the point (General Decimal Arithmetic spec); the coefficient (with or without its sign stripped) is split at '.' only in the branch where it contains('.')",
      [r"call:contains=True"]),
     # ---------------------------------------------------------------- feel-parser: lexer
     (r"lexer::Lexer::<'lexer>::char_at$", r"assert\|Overflow:Add",
